@@ -1,4 +1,5 @@
 """C12 — the hub's wire input is handled totally, boundedly and in step (DESIGN §7 C12)."""
+import re
 from rules.common import *  # noqa: F401,F403
 from rules.hub import Hub, SERVE, LOCK, SAFE_JOIN, FS_PATH_SINKS
 from rules import panics
@@ -142,7 +143,52 @@ def r2(ctx, F):
     allocs = fl.calls(lambda c: c in ('std::vec::from_elem', 'std::vec::Vec::<T>::with_capacity', 'std::vec::Vec::<T, A>::resize',
                                       'std::vec::Vec::<T, A>::reserve', 'std::vec::Vec::<T, A>::reserve_exact'))
     if not allocs:
-        ctx.missing('C12.R2', 'read_frame: buffer allocation')
+        # no buffer is reserved up front: the frame is read into a growing buffer (`take(len).read_to_end(&mut buf)`), which ends
+        # up holding `len` bytes all the same when the peer sends them - what bounds the memory is the test on the prefix
+        grow = fl.calls(lambda c: c.endswith('::read_to_end') or c.endswith('::read_to_string'))
+        if not grow:
+            ctx.missing('C12.R2', 'read_frame: buffer allocation')
+        bounds = []       # (value or None, text, body, line)
+        for xb in [b] + [n for n in F.nested('wire::read_frame') if n is not b]:
+            for blk in xb.blocks:
+                for st in blk['stmts']:
+                    rv = st['rv']
+                    if rv['k'] == 'bin' and rv['op'] in ('Gt', 'Ge', 'Lt', 'Le'):
+                        cs = [o for o in rv['ops'] if o['k'] == 'const']
+                        if len(cs) == 1:
+                            bounds.append((cs[0].get('v'), str(cs[0].get('dbg') or ''), xb, st.get('line')))
+        if not bounds:
+            ctx.bad('C12.R2', 'read_frame:unbounded-frame', 'read_frame reads a frame of the announced length into a growing buffer and never compares the length with a bound', loc(b, b.lo))
+            return
+        # which message type the HUB reads: the generic arguments of the read_frame calls in serve.rs
+        hub_types = set()
+        for p_, sb in F.bodies.items():
+            if not sb.file.endswith('bin/copia/serve.rs'):
+                continue
+            for cb_, ct_ in flow_of(sb).calls_to('wire::read_frame'):
+                ga = re.findall(r'(wire::\w+)', ct_['func'].get('fn_args') or '')
+                hub_types |= set(ga)
+        for val, text, xb, line in bounds:
+            if val is None:
+                m = re.match(r'<(\w+) as ([\w:]+)>::(\w+)$', text)
+                vals = []
+                if m:
+                    for ty in sorted(hub_types):
+                        cv = F.consts.get('<%s as %s>::%s' % (ty, m.group(2), m.group(3)), {}).get('val')
+                        if cv is not None:
+                            vals.append((ty, cv))
+                if not vals:
+                    ctx.undecided('C12.R2', 'read_frame bounds the length prefix by %s: its value for the message type the hub reads was not found' % text)
+                    continue
+                for ty, cv in vals:
+                    ctx.check(cv <= (1 << 20), 'C12.R2', 'read_frame:bound(%s)' % ty.split('::')[-1], 'the hub reads %s frames: prefix bounded by %s = %d' % (ty, text, cv),
+                              'the hub reads %s frames and accepts a length prefix up to %s = %d: a control frame of more than 1 MiB is buffered whole' % (ty, text, cv), loc(xb, line or xb.lo))
+            else:
+                ctx.check(val <= (1 << 20), 'C12.R2', 'read_frame:bound', 'prefix bounded by %s = %d' % (text, val),
+                          'read_frame - which the hub\'s read loop uses - accepts a length prefix up to %s = %d bytes: a control frame of more than the 1 MiB bound is buffered whole '
+                          '(the smaller bound of the request type holds only against a cooperating sender)' % (text, val), loc(xb, line or xb.lo))
+        ctx.check(mf == 1 << 20, 'C12.R2', 'MAX_FRAME', 'MAX_FRAME == 1<<20', 'MAX_FRAME is %s, the documented control-frame bound is 1 MiB' % mf, 'src/bin/copia/wire.rs')
+        return
     for ab, at in allocs:
         c = callee(at)
         size_arg = at['args'][1] if c in ('std::vec::from_elem',) or 'resize' in c or 'reserve' in c else at['args'][0]
